@@ -280,8 +280,17 @@ func (a *APIRunner) conditional(call APICall) (client.ConditionalAPI, error) {
 	return nil, fmt.Errorf("unknown selection form %q", call.Sel.Form)
 }
 
-// Ops makes the call on the real API.
-func (a *APIRunner) Ops(call APICall) ([]ovsdb.Operation, error, error) {
+// Ops makes the call on the real API; a panic inside the library is reported as the call's error.
+func (a *APIRunner) Ops(call APICall) (ops []ovsdb.Operation, apiErr error, err error) {
+	defer func() {
+		if r := recover(); r != nil {
+			ops, apiErr, err = nil, fmt.Errorf("panic: %v", r), nil
+		}
+	}()
+	return a.ops(call)
+}
+
+func (a *APIRunner) ops(call APICall) ([]ovsdb.Operation, error, error) {
 	t := call.Table
 	if call.Kind == "create" {
 		var ms []model.Model
@@ -345,7 +354,16 @@ func (a *APIRunner) Ops(call APICall) ([]ovsdb.Operation, error, error) {
 }
 
 // list reports the rows the call's selection lists on the client's cache.
-func (a *APIRunner) list(call APICall) ([]interface{}, string, error) {
+func (a *APIRunner) list(call APICall) (out []interface{}, listErr string, err error) {
+	defer func() {
+		if r := recover(); r != nil {
+			out, listErr, err = []interface{}{}, fmt.Sprintf("panic: %v", r), nil
+		}
+	}()
+	return a.list1(call)
+}
+
+func (a *APIRunner) list1(call APICall) ([]interface{}, string, error) {
 	out := []interface{}{}
 	if call.Kind == "create" {
 		return out, "", nil
